@@ -415,6 +415,45 @@ macro_rules! dispatch_shape {
         }
     };
 }
+// scalar multiplier forms: BigUint *= u32 / u64 / u128 (and `x * s`): a scalar that fits one digit goes to scalar_mul with that digit,
+// a wider u128 goes to mul3 with its two digits [lo, hi]; a zero big operand stays a canonical zero
+macro_rules! scalar_dispatch_shape {
+    ($name:ident, $la:expr, $T:ty, |$a:ident, $s:ident| $e:expr) => {
+        #[kani::proof]
+        #[kani::unwind(12)]
+        #[kani::stub(scalar_mul, scalar_mul_rec)]
+        #[kani::stub(crate::biguint::verif_common::symbolic, crate::biguint::verif_common::yes)]
+        #[kani::stub(mul3, mul3_rec)]
+        fn $name() {
+            let a0: [u64; $la] = vc::any_canon::<$la>();
+            let $s: $T = kani::any();
+            let $a = vc::mk_from(&a0);
+            unsafe { D_KIND = 0; }
+            let sv: u128 = $s as u128;
+            let r: BigUint = $e;
+            if !vc::symbolic() {
+                let prod = vc::ref_mul::<{ $la + 3 }>(&a0, &[sv as u64, (sv >> 64) as u64]);
+                kani::assert(vc::eq_window(vc::digits(&r), &prod) && vc::is_canonical(&r), "VERIF product by a scalar differs from the schoolbook reference (native replay)");
+                return;
+            }
+            if sv <= u64::MAX as u128 {
+                kani::assert(unsafe { D_KIND } == 1 && unsafe { D_SCALAR } == sv as u64 && unsafe { D_LX } == $la, "VERIF one-digit scalar must go to scalar_mul with that digit");
+            } else {
+                kani::assert(unsafe { D_KIND } == 2 && unsafe { D_LX } == $la && unsafe { D_LY } == 2, "VERIF two-digit scalar must go to mul3 with [lo, hi]");
+            }
+        }
+    };
+}
+scalar_dispatch_shape!(c02_q_sdispatch_u128_assign_0, 0, u128, |a, s| { let mut x = a; x *= s; x });
+scalar_dispatch_shape!(c02_q_sdispatch_u128_assign_2, 2, u128, |a, s| { let mut x = a; x *= s; x });
+scalar_dispatch_shape!(c02_q_sdispatch_u128_val_1, 1, u128, |a, s| a * s);
+scalar_dispatch_shape!(c02_q_sdispatch_u128_left_1, 1, u128, |a, s| s * a);
+scalar_dispatch_shape!(c02_q_sdispatch_u64_assign_0, 0, u64, |a, s| { let mut x = a; x *= s; x });
+scalar_dispatch_shape!(c02_q_sdispatch_u64_val_2, 2, u64, |a, s| a * s);
+scalar_dispatch_shape!(c02_q_sdispatch_u32_ref_1, 1, u32, |a, s| &a * s);
+scalar_dispatch_shape!(c02_t_sdispatch_usize_assign_1, 1, usize, |a, s| { let mut x = a; x *= s; x });
+scalar_dispatch_shape!(c02_t_sdispatch_u8_left_2, 2, u8, |a, s| s * &a);
+
 // mul3 sizing: product buffer x.len() + y.len() + 1, result normalised
 static mut M_ACC: usize = 0;
 fn mac3_rec(acc: &mut [u64], b: &[u64], c: &[u64]) {
